@@ -146,6 +146,14 @@ class Module:
             raise Unsupported(f"function {key} not found")
         return None, self.funcs[key]
 
+    def builder_like(self, key) -> bool:
+        try:
+            _, fd = self.fdef(key)
+        except Unsupported:
+            return False
+        return any(isinstance(n, ast.Call) and isinstance(n.func, ast.Attribute) and n.func.attr in ("Element", "SubElement", "append", "extend")
+                   for n in ast.walk(fd))
+
     def info(self, key) -> Info:
         if key in self.memo:
             r = self.memo[key]
@@ -204,16 +212,16 @@ class Fn:
             self.atoms.append(text)
         return ("atom", self.atoms.index(text))
 
-    def cond(self, t):
+    def cond(self, t, top=True):
         if isinstance(t, ast.BoolOp):
             op = "and" if isinstance(t.op, ast.And) else "or"
-            cs = [self.cond(v) for v in t.values]
+            cs = [self.cond(v, False) for v in t.values]
             c = cs[-1]
             for v in reversed(cs[:-1]):
                 c = (op, v, c)
             return c
         if isinstance(t, ast.UnaryOp) and isinstance(t.op, ast.Not):
-            return ("not", self.cond(t.operand))
+            return ("not", self.cond(t.operand, False))
         if isinstance(t, ast.Compare) and len(t.ops) == 1:
             l, o, r = t.left, t.ops[0], t.comparators[0]
             if isinstance(r, ast.Constant) and r.value is None and isinstance(o, (ast.IsNot, ast.NotEq)):
@@ -227,6 +235,8 @@ class Fn:
                 return ("lenPos", self.src(l.args[0]))
         if isinstance(t, (ast.Name, ast.Attribute)):
             return ("truthy", self.src(t))
+        if top and isinstance(t, ast.Constant) and isinstance(t.value, bool):
+            return ("const", t.value)
         return self.atom(self.src(t))
 
     @staticmethod
@@ -316,6 +326,9 @@ class Fn:
         try:
             return self.mod.info(k)
         except Unsupported:
+            # a function that builds elements but cannot be read makes its callers unreadable too (never silently dropped)
+            if k in XSD or self.mod.builder_like(k):
+                raise
             return None
 
     def target_rec(self, e):
@@ -534,6 +547,9 @@ class Fn:
                 it = s.iter
                 if isinstance(it, ast.Call) and isinstance(it.func, ast.Name) and it.func.id == "enumerate" and it.args:
                     it = it.args[0]
+                if (isinstance(it, ast.BoolOp) and isinstance(it.op, ast.Or) and len(it.values) == 2
+                        and isinstance(it.values[1], (ast.List, ast.Tuple)) and not it.values[1].elts):
+                    it = it.values[0]       # `for x in xs or []`
                 self.canon, saved2 = saved, self.canon
                 self.colls[id(s)] = self.src(it)
                 self.canon = saved2
@@ -591,7 +607,9 @@ class Fn:
                     out.append(e)
             if isinstance(s, ast.If) and id(s) not in self.skip_if:
                 t, e = self.proj(s.body, rec, root), self.proj(s.orelse, rec, root)
-                if t or e:
+                if self.conds[id(s)][0] == "const":          # `if True:` / `if False:`
+                    out += t if self.conds[id(s)][1] else e
+                elif t or e:
                     out.append(("ite", self.conds[id(s)], t, e))
             elif isinstance(s, ast.For):
                 b = self.proj(s.body, rec, root)
